@@ -206,6 +206,10 @@ def run(rep):
     for i in F.items["impls"]:
         if i.get("trait") == "value::Object":
             rep.check("find" not in i["items"], "DELEGATE", "DELEGATE/no-override/" + i["self"], i["sp"], "Object impl does not override find", str(i["items"]))
+    # the same number arrives as Int from a signed Rust integer and as UInt from YAML/JSON/unsigned integers: the solver's numeric tables
+    # must treat the two kinds alike (operand extraction per cast kind x value kind, mixed comparisons; shared with C09)
+    import core
+    core.import_rules(rep, "c09", {"T-CAST", "T-CMP"})
     rep.floor("T-ADAPT", 34)
     rep.floor("T-NUMBER", 9)
     rep.floor("T-CONTAINER", 10)
